@@ -353,6 +353,15 @@ impl<'a> crate::fdl::FdlApplication for DpMaster<'a> {
                         }
                     }
                 }
+            } else {
+                // There is no peripheral at or after this index, for example because no
+                // peripherals were added at all.  Nothing to do, so end our turn.
+                self.state.cycle_state = CycleState::DataExchange(0);
+                self.state.last_events = DpEvents {
+                    peripheral: peripheral_event,
+                    ..Default::default()
+                };
+                return None;
             }
         }
     }
